@@ -196,7 +196,8 @@ def main():
     from . import cond_proofs
     cond_proofs.run(rep, "C05")
     text += (" Proved (pyvc + Lean 4): _optimize_simplify_transition_matches rewrites a symbol list to [Else] exactly when it lists Else among other symbols and touches nothing else (arbitrary transition, symbolic flag); "
-             "L-simplify: under RI1 that rewrite preserves the transition every symbol selects.")
+             "L-simplify: under RI1 that rewrite preserves the transition every symbol selects. DFA.dfs (what remove-inaccessible keeps) yields every state a transition can lead to, "
+             "for every override mode and every ordered pair of modes of its actions; _optimize_remove_inaccessible removes exactly the unreached states (start-action targets count as reached), keeps the order, and does nothing with the flag off.")
     text += (" Proved for all symbol lists, collapse thresholds and flag values (pyarr: VCs from the real AST with loop invariants, z3): the condition text emitted by "
              "_generate_condition_for_transition denotes exactly the transition's byte symbols, with or without range collapsing; the leaf templates (_generate_equal_check, _generate_range_check) by exhaustion.")
     return rep.finish(text, checker_cmd="./check C05", require_obligations=False)
